@@ -15,6 +15,7 @@ import (
 
 	"verif/engine"
 	"verif/harness/hk"
+	"verif/harness/tcpx"
 	"verif/harness/world"
 	"verif/rt/vnet"
 	"verif/rt/vrt"
@@ -285,6 +286,42 @@ func gridS() []Spec {
 	return out
 }
 
+// pairScenario: two authenticated connections handled at the same time by one handler (replay
+// history on, so that the authentication path has its lock operations): each target must get
+// exactly its client's bytes and each client exactly its target's.
+func pairScenario(c0, c1 int) *engine.Scenario {
+	s := tcpx.Spec{Concurrent: true, Cache: 100, Conns: []tcpx.ConnSpec{{Class: "ok", Cipher: c0, Up: 40, Down: 60}, {Class: "ok", Cipher: c1, Up: 70, Down: 30}}}
+	o := &tcpx.Obs{}
+	sc := &engine.Scenario{Name: fmt.Sprintf("relay-pair[%d,%d]", c0, c1), Opt: vrt.Options{Horizon: time.Hour}}
+	sc.Body = tcpx.Build(s, o, nil)
+	sc.Check = func(x *vrt.Exec) (string, bool, []*engine.Finding) {
+		fs := hk.Generic(x, hk.Opts{})
+		obs := ""
+		if len(fs) == 0 {
+			for i, co := range o.Conns {
+				if co == nil {
+					continue
+				}
+				wantUp := append([]byte{byte(co.Spec.Down >> 8), byte(co.Spec.Down)}, world.Pattern(0x21, co.Spec.Up)...)
+				wantDown := world.Pattern(0x33, co.Spec.Down)
+				obs += fmt.Sprint(len(co.TargetGot), len(co.Plain), ";")
+				if !bytes.Equal(co.TargetGot, wantUp) {
+					fs = append(fs, &engine.Finding{Sig: "up-stream-corrupt", Msg: fmt.Sprintf("connection %d of two concurrent ones: its target received %d bytes, the client sent %d (first difference at %d)", i, len(co.TargetGot), len(wantUp), firstDiff(co.TargetGot, wantUp))})
+				}
+				if !bytes.Equal(co.Plain, wantDown) {
+					fs = append(fs, &engine.Finding{Sig: "down-stream-corrupt", Msg: fmt.Sprintf("connection %d of two concurrent ones: the client decrypted %d bytes, its target sent %d", i, len(co.Plain), len(wantDown))})
+				}
+			}
+		}
+		return obs, true, fs
+	}
+	return sc
+}
+
+func pairScenarios() []*engine.Scenario {
+	return []*engine.Scenario{pairScenario(0, 0), pairScenario(1, 3)}
+}
+
 func init() {
 	hk.Register("C02", func(ctx *engine.Ctx) {
 		// engine E: default schedule over the grid
@@ -306,6 +343,9 @@ func init() {
 		for _, s := range gridS() {
 			engine.ExploreS(ctx, build(s), engine.SConfig{Bound: bound, Shard: ctx.Shard, NShards: ctx.NShards, Deadline: ctx.Deadline})
 		}
+		for _, sc := range pairScenarios() {
+			engine.ExploreS(ctx, sc, engine.SConfig{Bound: bound - 1, Shard: ctx.Shard, NShards: ctx.NShards, Deadline: ctx.Deadline})
+		}
 	})
 	hk.Replayers["C02"] = func(ctx *engine.Ctx, rp engine.Replay) []*engine.Finding {
 		var s Spec
@@ -320,6 +360,7 @@ func init() {
 		for _, s := range gridS() {
 			scs = append(scs, build(s))
 		}
+		scs = append(scs, pairScenarios()...)
 		return engine.ReplayScenario(scs, rp)
 	}
 }
